@@ -146,7 +146,7 @@ class FetchUnused(FetchStream):
         if case.get("pre") and len(obs) >= 5 and o0[0] == "ok" and isinstance(obs[4], list) and obs[4][0] == "ok" \
                 and o0[2][0] == "ok" and obs[4][2][0] == "ok":
             shift = case["pre"].count("\n")
-            with_pre = sorted([p, int(l)] for p, l in o0[2][1] if p not in ("zq", "zr"))
+            with_pre = sorted([p, int(l)] for p, l in o0[2][1] if int(l) > shift)     # entries of the added lines themselves left out
             plain = sorted([p, int(l) + shift] for p, l in obs[4][2][1])
             if with_pre != plain:
                 return "lines: with %d extra line(s) in front of every source the report is %s; without them %s (expected the same entries %d line(s) further down)" % (
